@@ -5,6 +5,7 @@ import (
 	"bytes"
 	"context"
 	"fmt"
+	"math/big"
 	"math/rand"
 	"sort"
 
@@ -139,6 +140,19 @@ func (v *view) specAccept(h uint32, weight, threshold uint64, nonEmpty bool) (bo
 
 func (v *view) verify(ac *blockchain.AggregateCommit) (err error) {
 	return v.n.Exec.VerifVerifyAggregateCommit(ac)
+}
+
+// blsOrder is the order of the BLS12-381 groups.
+var blsOrder, _ = new(big.Int).SetString("73eda753299d7d483339d80809a1d80553bda402fffe5bfeffffffff00000001", 16)
+
+// shiftScalar returns the secret key sk+d mod r (32 bytes, big endian).
+func shiftScalar(sk []byte, d int64) []byte {
+	x := new(big.Int).SetBytes(sk)
+	x.Add(x, big.NewInt(d))
+	x.Mod(x, blsOrder)
+	out := make([]byte, 32)
+	x.FillBytes(out)
+	return out
 }
 
 func popcount(x int) int {
@@ -499,9 +513,21 @@ func probePool(k *mon.Case, r *rand.Rand, n *node.Node) {
 				continue
 			}
 			signer := vals[r.Intn(len(vals))].v
-			kind := []string{"valid", "valid", "valid", "bad-signature", "inactive-validator", "other-block-id", "wrong-signer-key", "block-id-of-another-height-after-valid-commit"}[r.Intn(8)]
+			kind := []string{"valid", "valid", "valid", "bad-signature", "inactive-validator", "other-block-id", "wrong-signer-key", "block-id-of-another-height-after-valid-commit", "compensating-signature-pair"}[r.Intn(9)]
 			var sc *certificate.SingleCommit
 			switch kind {
+			case "compensating-signature-pair":
+				// two commits for one block by two active validators, signed with (skA+1) and (skB-1):
+				// neither signature verifies, their sum equals the sum of the two honest signatures
+				if len(vals) < 2 {
+					continue
+				}
+				p := r.Perm(len(vals))
+				sa, sb := vals[p[0]].v, vals[p[1]].v
+				msg := certMessage(chainID, hdr)
+				cs = append(cs, certificate.VerifNewSingleCommit(hdr.ID, h, sa.Address, crypto.BLSSign(msg, shiftScalar(sa.BLS.PrivateKey, 1)), false))
+				kinds = append(kinds, kind)
+				sc = certificate.VerifNewSingleCommit(hdr.ID, h, sb.Address, crypto.BLSSign(msg, shiftScalar(sb.BLS.PrivateKey, -1)), false)
 			case "block-id-of-another-height-after-valid-commit":
 				// an ordinary commit for block h, then one that repeats h's block ID under another
 				// height h2 (signer active at h2, signature over h's certificate): the chain has
